@@ -1,5 +1,5 @@
 #!/bin/bash
-# usage: scripts/try_seed.sh <patch.diff> <tier> <Cnn> [<Cnn>...]
+# usage: [DRIVER=cmd/c05] scripts/try_seed.sh <patch.diff> <tier> <Cnn> [<Cnn>...]   (DRIVER: build only that private driver)
 # Applies the patch to a scratch worktree of /repo (never to /repo itself), builds the driver against that
 # worktree through an alternate go.mod, runs the named checks with evidence/replays redirected to a scratch
 # VERIF_ROOT, prints one line per check, and removes everything again.
@@ -14,7 +14,7 @@ if ! git -C "$wt" apply "$patch"; then echo "PATCH-DOES-NOT-APPLY $patch"; exit 
 mkdir -p "$out/bin"
 sed "s|=> /repo|=> $wt|" "$VERIF_ROOT/go.mod" > /tmp/mut-$id.mod; cp "$VERIF_ROOT/go.sum" /tmp/mut-$id.sum
 cd "$VERIF_ROOT"
-if ! go build -modfile=/tmp/mut-$id.mod -tags verif,mapseed -overlay "$VERIF_ROOT/overlay/mapseed.json" -o "$out/bin/verif" ./cmd/verif 2> "$out/build.log"; then
+if ! go build -modfile=/tmp/mut-$id.mod -tags verif,mapseed -overlay "$VERIF_ROOT/overlay/mapseed.json" -o "$out/bin/verif" ./${DRIVER:-cmd/verif} 2> "$out/build.log"; then
   echo "MUTANT-BUILD-FAILED"; head -20 "$out/build.log"; exit 3
 fi
 cp "$VERIF_ROOT/known_findings.json" "$out/" 2>/dev/null
